@@ -16,5 +16,8 @@ CONSTANTS
   Strict = FALSE
   WithServe = FALSE
   Hist = FALSE
-INVARIANTS C06_DrainHolds
+  SlackEarly = 0
+  SlackLate = 0
+  SlackSched = 0
+INVARIANTS Inv_C06Drain
 VIEW View
